@@ -323,3 +323,4 @@ def build(p):
   p.not_covered.append('HypCluster with one cluster (argmin over one loss; differs from FedAvg on an all-empty cohort with a '
                        'stateful server optimizer) — checked by the bounded native driver only')
   p.not_covered.append('MimeLite / Mime round skeleton (shared_input dict, full-batch gradient pass): native driver only')
+  p.not_covered.append('order of the backend output (pmap re-orders clients): the relational contracts take it in input order; native pmap runs only')
